@@ -475,3 +475,67 @@ Proof.
      cbn [obind one_sp]; reflexivity
    | reflexivity ]).
 Qed.
+
+(* ------------------------------------------------------------------ records *)
+Definition lay_of (w : prow) : pre_row_lay :=
+  {| pl_td := (w_m1 w, w_d1 w, w_y1 w); pl_sd := (w_m2 w, w_d2 w, w_y2 w); pl_sym := w_sym w; pl_act := w_act w;
+     pl_qty := w_qty w; pl_price := w_pa w ++ 46 :: w_pb w; pl_comm := odec_text (w_oc w); pl_fee := odec_text (w_of w) |}.
+Definition prow_sem (w : prow) : Prop :=
+  parse_short_mdy (w_m1 w, w_d1 w, w_y1 w) = Ok (date_ord_short (w_m1 w, w_d1 w, w_y1 w))
+  /\ parse_short_mdy (w_m2 w, w_d2 w, w_y2 w) = Ok (date_ord_short (w_m2 w, w_d2 w, w_y2 w))
+  /\ is_ok (action_of (w_act w)) = true /\ (length (w_qty w) <= 28)%nat
+  /\ is_ok (a_add dec (odec_val (w_oc w)) (odec_val (w_of w))) = true.
+
+Lemma opt_dval_odec o : opt_dval (odec_text o) = odec_val o.
+Proof. destruct o as [[a b]|]; reflexivity. Qed.
+
+Lemma trades_ok acct : forall ws row, Forall prow_ok ws -> Forall prow_sem ws ->
+  trades_of_caps acct row (map caps_of ws) = Ok (pre_records acct row (map lay_of ws)).
+Proof.
+  induction ws as [|w ws IH]; intros row Hok Hsem; [reflexivity|].
+  inversion Hok as [|? ? Hw Hws]; subst. inversion Hsem as [|? ? Sw Sws]; subst.
+  destruct Hw as (_ & _ & _ & _ & (Q1 & Q2) & HP & Hc & Hf & _). destruct Sw as (P1 & P2 & PA & LQ & PV).
+  cbn [map trades_of_caps pre_records]. unfold trade_of_caps.
+  cbn [caps_of cp_td cp_sd cp_sym cp_act cp_n cp_price cp_comm cp_fee].
+  rewrite P1, P2. cbn [bind]. destruct (action_of (w_act w)) as [a| |] eqn:EA; try discriminate PA. cbn [bind].
+  pose proof HP as HP'. dsplit HP'. rewrite parse_large_dec by assumption. cbn [bind].
+  rewrite parse_large_int by assumption. cbn [bind].
+  rewrite (opt_dec_odec _ Hc). cbn [bind]. rewrite (opt_dec_odec _ Hf). cbn [bind].
+  assert (EC : or_zero (option_map dval (odec_text (w_oc w))) = odec_val (w_oc w)) by (destruct (w_oc w) as [[? ?]|]; reflexivity).
+  assert (EF : or_zero (option_map dval (odec_text (w_of w))) = odec_val (w_of w)) by (destruct (w_of w) as [[? ?]|]; reflexivity).
+  rewrite EC, EF. destruct (a_add dec (odec_val (w_oc w)) (odec_val (w_of w))) as [v| |] eqn:EV; try discriminate PV. cbn [bind].
+  rewrite (IH (S row) Hws Sws). cbn [bind].
+  unfold lay_of. cbn [pl_td pl_sd pl_sym pl_act pl_qty pl_price pl_comm pl_fee].
+  unfold sell_or_buy, dec_sum. rewrite EA, !opt_dval_odec, EV. reflexivity.
+Qed.
+
+Lemma render_row_rblk st w : prow_ok w -> render_pre_row st (lay_of w) = rblk st w [].
+Proof.
+  intros (_ & _ & _ & _ & _ & _ & _ & _ & Hne). unfold render_pre_row, rblk, lay_of, date_text, pmkt, pdesc, pend, comm_tail, opt_line.
+  cbn [pl_td pl_sd pl_sym pl_act pl_qty pl_price pl_comm pl_fee].
+  destruct (w_oc w) as [[a b]|], (w_of w) as [[a2 b2]|]; cbn [odec_text];
+    try (destruct Hne; congruence); repeat (rewrite <- app_assoc || rewrite <- app_comm_cons); rewrite ?app_nil_r; reflexivity.
+Qed.
+Lemma render_rows_blocks st : forall ws i, Forall prow_ok ws ->
+  flat_map (render_pre_row st) (map lay_of ws) = blocks (pblk st) i ws.
+Proof.
+  induction ws as [|w ws IH]; intros i H; [reflexivity|]. inversion H; subst.
+  cbn [map flat_map blocks]. rewrite (render_row_rblk st w) by assumption. rewrite (IH (S i)) by assumption. reflexivity.
+Qed.
+
+Lemma pre_parse st acct ws :
+  acct <> [] -> forallb is_acct acct = true -> Forall prow_ok ws -> Forall prow_sem ws ->
+  parse_tc_pre (render_tc_pre st {| pr_acct := acct; pr_rows := map lay_of ws |})
+  = Ok (pre_records acct 1 (map lay_of ws)).
+Proof.
+  intros Na Ha Hok Hsem. unfold render_tc_pre. cbn [pr_acct pr_rows].
+  rewrite (render_rows_blocks st ws 1 Hok).
+  replace (sty st pre0_0 pre1_0 ++ acct ++ sty st pre0_1 pre1_1 ++ acct ++ sty st pre0_2 pre1_2
+           ++ blocks (pblk st) 1 ws ++ sty st pre0_foot pre1_foot)
+    with (pre_hd st acct ++ blocks (pblk st) 1 ws ++ sty st pre0_foot pre1_foot)
+    by (unfold pre_hd; rewrite <- !app_assoc; reflexivity).
+  unfold parse_tc_pre. destruct (pre_account st acct (blocks (pblk st) 1 ws ++ sty st pre0_foot pre1_foot) Na Ha) as [rest E].
+  rewrite E. cbn [bind].
+  rewrite (rows_all_matches st ws (pre_hd st acct) _ Hok (fun X => hd_skip st acct X Ha) (foot_none st)).
+  apply trades_ok; assumption.
+Qed.
